@@ -23,12 +23,13 @@ import (
 )
 
 type c19Raw struct {
-	xs       []*big.Int
-	tag      string
-	kmacSize int
-	msgs     [][]byte
-	ecSeeds  [][]byte
-	ecSigs   [][]byte // ECDSA signatures are randomized: made once and shared as bytes
+	xs            []*big.Int
+	tag           string
+	kmacSize      int
+	msgs          [][]byte
+	ecSeeds       [][]byte
+	ecSigs        [][]byte // ECDSA signatures are randomized: made once and shared as bytes
+	pk0FromRemove bool     // the shared key 0 is the (not normalised) result of RemoveBLSPublicKeys instead of a decoded key
 }
 
 type c19World struct {
@@ -62,6 +63,9 @@ func c19Build(g *gen.G, raw *c19Raw) *c19World {
 	}
 	if w.rem, err = crypto.RemoveBLSPublicKeys(w.agg, w.pks[1:]); err != nil {
 		g.Fatalf("RemoveBLSPublicKeys: %v", err)
+	}
+	if raw.pk0FromRemove {
+		w.pks[0] = w.rem
 	}
 	w.shared = crypto.NewExpandMsgXOFKMAC128(raw.tag)
 	w.kmac, _ = hash.NewKMAC_128([]byte("0123456789abcdef-c19"), []byte("c"), raw.kmacSize)
@@ -146,6 +150,7 @@ func TestC19_RaceFree(t *testing.T) {
 			x, _ := drawScalar(g, fmt.Sprintf("sk%d", i))
 			raw.xs = append(raw.xs, x)
 		}
+		raw.pk0FromRemove = g.Bool("key0FromRemove")
 		raw.tag = "c19-" + string(g.Bytes("tag", 0, 6))
 		raw.kmacSize = g.Int("kmacSize", 32, 64)
 		for i := 0; i < 3; i++ {
@@ -165,6 +170,9 @@ func TestC19_RaceFree(t *testing.T) {
 
 		mk := func(label string) c19Call {
 			ki, mi := g.Pick(label+"Key", nk), g.Pick(label+"Msg", nm)
+			if raw.pk0FromRemove && g.Bool(label+"Key0") {
+				ki = 0
+			}
 			switch g.Int(label+"Op", 0, 13) {
 			case 0, 1:
 				return c19Call{"KMAC128.ComputeHash(shared)", func(w *c19World) string { return fmt.Sprintf("%x", w.kmac.ComputeHash(w.msgs[mi])) }}
